@@ -616,6 +616,7 @@ def groupCheck (st : St) (impl : String) (topicParts : Option Nat := none) : Lis
          let zombies := ids.filter (fun i => !live.contains i)
          if m = 0 || zombies.isEmpty then [] else
            [s!"SPEC-VIOL {st.line} class=group-zombie-member members {zombies} are not connected clients, impl={impl}"]) ++
+        (if (impl.splitOn "BADCOUNT").length > 1 then [s!"SPEC-VIOL {st.line} class=group-member-count a member's partitions_count is not the length of its partition list, impl={impl}"] else []) ++
         (if shares.length != m then [s!"SPEC-VIOL {st.line} class=group-members impl={impl}"] else []) ++
         (if !cover || !existing then [s!"SPEC-VIOL {st.line} class=group-cover every partition must be in exactly one share, impl={impl}"] else []) ++
         (if !balanced then [s!"SPEC-VIOL {st.line} class=group-balance shares differ by more than one, impl={impl}"] else [])
@@ -778,6 +779,9 @@ def sdkNext (st : St) (c : SdkCons) : Nat → List String → St × SdkCons × S
     | (st, c, some y) => sdkNext st { c with last := (c.last.filter (·.1 ≠ y.pid)) ++ [(y.pid, y.msg.off)] } k (showYield y :: acc)
     | (st, c, none) => (st, c, ("ok " ++ (if acc.isEmpty then "-" else ",".intercalate acc.reverse) ++ " stall"))
 
+/-- consumers and consumer groups with the same numeric id are different identities -/
+def idKey (c : Consumer) : Nat := c.id + (if c.grp then 1000000 else 0)
+
 /-- specification-level oracles on what a consumer yielded (independent of the consumer model): in
 offset order without gaps or repeats per partition, genuine, and a stall only when nothing is left -/
 def sdkOracle (st : St) (c : SdkCons) (impl : String) : List String := Id.run do
@@ -789,16 +793,27 @@ def sdkOracle (st : St) (c : SdkCons) (impl : String) : List String := Id.run do
     | [p, o, i] => do pure ((← p.toNat?), (← o.toNat?), (← i.toNat?))
     | _ => none)
   let mut last := c.last
+  -- group members: the highest offset any member has yielded so far, per partition
+  let mut ghi : List (Nat × Nat) := []
   for (p, o, i) in ys do
     match last.find? (·.1 == p) with
     | some (_, l) =>
       -- `next` / `offset`: no gaps; `first` / `last` / `timestamp` ask for a fixed position again and again
-      -- (a jump is what was asked for): strictly increasing
+      -- (a jump is what was asked for): strictly increasing.  A group member may lose a partition to another
+      -- member and get it back later: for it "no gap" means nothing beyond what the GROUP has yielded is skipped
       let gapFree := match c.cons.strat with | .next => true | .offset _ => true | _ => false
-      if !c.cfg.replay && (if gapFree then o != l + 1 else o ≤ l) then
-        out := out ++ [s!"SPEC-VIOL {st.line} class=consumer-order partition={p} after={l} got={o} impl={impl}"]
+      let groupHi : Option Nat := match ghi.find? (·.1 == p) with
+        | some (_, h) => some h
+        | none => ((resolvePart st.sys c.si c.ti p).map (·.1)).bind (fun key =>
+            ((st.sdkIds.find? (·.1 == (key, idKey c.consumer))).map (·.2)).bind (·.1))
+      let bad := if !gapFree then o ≤ l
+        else if c.consumer.grp then o ≤ l || (o > (max l (groupHi.getD l)) + 1 && !c.cfg.polling)
+        else o != l + 1
+      if !c.cfg.replay && bad then
+        out := out ++ [s!"SPEC-VIOL {st.line} class=consumer-order partition={p} after={l} got={o} group-yielded-up-to={repr groupHi} impl={impl}"]
     | none => pure ()
     last := (last.filter (·.1 ≠ p)) ++ [(p, o)]
+    ghi := (ghi.filter (·.1 ≠ p)) ++ [(p, max o ((ghi.find? (·.1 == p)).map (·.2) |>.getD 0))]
     let key : Option PKey := (resolvePart st.sys c.si c.ti p).map (·.1)
     match key.bind st.spec.get with
     | some sp =>
@@ -806,9 +821,6 @@ def sdkOracle (st : St) (c : SdkCons) (impl : String) : List String := Id.run do
         out := out ++ [s!"SPEC-VIOL {st.line} class=consumer-not-genuine partition={p} offset={o} id={i}"]
     | none => out := out ++ [s!"SPEC-VIOL {st.line} class=consumer-not-genuine partition={p} (no such partition)"]
   return out
-
-/-- consumers and consumer groups with the same numeric id are different identities -/
-def idKey (c : Consumer) : Nat := c.id + (if c.grp then 1000000 else 0)
 
 def setAssoc {α : Type} (l : List (Nat × α)) (k : Nat) (v : α) : List (Nat × α) :=
   (l.filter (·.1 ≠ k)) ++ [(k, v)]
